@@ -6,7 +6,7 @@ compares what the tools would do: GNU make itself reports the Make side (`make -
 for the dependency relation); the Ninja side is read with the evaluator of specs/ninja_eval.py (no ninja binary exists
 in the sandbox); command lines are cut into argument lists with the sh word spec.  Documented backend-specific
 differences that are normalised away: Ninja-only `-fdiagnostics-color`; Make's directory sentinels (`x/.dir`, mkdir,
-touch), its stamp file for a step with several outputs (`touch x.stamp`, and the no-op `:` that makes make look at the outputs again) and its depfixer post-processing line; the regeneration statement itself; `./` in front of a path."""
+touch), its stamp file for a step with several outputs (`touch x.stamp.tmp` ... `mv x.stamp.tmp x.stamp`, and the no-op `:` that makes make look at the outputs again) and its depfixer post-processing line; the regeneration statement itself; `./` in front of a path."""
 import json
 import os
 import re
@@ -278,7 +278,7 @@ class CrossBackend(Bounded):
                     raise RuntimeError((r.stdout + r.stderr)[-400:])
                 out = []
                 for l in r.stdout.splitlines():
-                    if re.match(r"^(mkdir -p '|touch '.*/\.dir'$|touch '?[^ ']*\.stamp'?$|:$|make(\[\d+\])?: )", l) or 'bfg9000-depfixer <' in l or \
+                    if re.match(r"^(mkdir -p '|touch '.*/\.dir'$|touch '?[^ ']*\.stamp'?(\.tmp)?$|mv '?[^ ']*\.stamp'?\.tmp '?[^ ']*\.stamp'?$|:$|make(\[\d+\])?: )", l) or 'bfg9000-depfixer <' in l or \
                             l.endswith('bfg9000 regenerate --lazy'):
                         continue
                     out.append(l)
